@@ -154,6 +154,7 @@ Definition update (reg : registry) (root : tree) (p : path) (recursive : bool) :
 (* ---- a process: registrations interleaved with commit()/update() calls on the same tree --------------------- *)
 
 Inductive dop : Type :=
+  | OClock (step : Z)               (* the wall clock / monotonic clock moves by `step` (any sign) *)
   | ORegister (s : string) (b : nat)
   | OCommit (p : path)
   | OUpdate (p : path) (recursive : bool).
@@ -162,10 +163,13 @@ Inductive dop : Type :=
 Fixpoint exec (reg : registry) (root : tree) (ops : list dop) : list (option outcome) :=
   match ops with
   | [] => []
+  | OClock _ :: r => exec reg root r        (* update(max_age=0) and commit() do not read any clock *)
   | ORegister s b :: r => exec (register reg s b) root r
   | OCommit p :: r => commit reg root p :: exec reg root r
   | OUpdate p rc :: r => update reg root p rc :: exec reg root r
   end.
+
+Definition is_clock (o : dop) : bool := match o with OClock _ => true | _ => false end.
 
 (* specification: the registrations of a sequence in chronological order, and the backend registered LAST for a
    scheme (cur = what was registered before the sequence) *)
